@@ -56,11 +56,13 @@ type Case struct {
 	Eff       string           `json:"eff"` // the directory -dir/cwd designate, relative to W (where patterns are resolved)
 	Out       string           `json:"out"` // -out argument ("" = absent); "ABS:x" = absolute path W/x
 	OutExists bool             `json:"out_exists"`
-	Flags     []string         `json:"flags,omitempty"`
-	Patterns  []Pattern        `json:"patterns"`
-	Prior     []int            `json:"prior"`     // choices for the prior state of the i-th relevant output path
-	Unrelated []modgen.File    `json:"unrelated"` // extra files in the prior output tree (relative to the output root)
-	Feat      []string         `json:"feat,omitempty"`
+	// OutSymlink: the output root exists as a symbolic link to a directory (seeded change C17-9)
+	OutSymlink bool          `json:"out_symlink,omitempty"`
+	Flags      []string      `json:"flags,omitempty"`
+	Patterns   []Pattern     `json:"patterns"`
+	Prior      []int         `json:"prior"`     // choices for the prior state of the i-th relevant output path
+	Unrelated  []modgen.File `json:"unrelated"` // extra files in the prior output tree (relative to the output root)
+	Feat       []string      `json:"feat,omitempty"`
 }
 
 func (c Case) hasFlag(f string) bool {
@@ -108,6 +110,10 @@ func snapshot(root string) (map[string]fileState, error) {
 	out := map[string]fileState{}
 	if _, err := os.Lstat(root); err != nil {
 		return out, nil
+	}
+	// the output root may be a symbolic link to a directory (WalkDir does not follow the root)
+	if real, err := filepath.EvalSymlinks(root); err == nil {
+		root = real
 	}
 	err := filepath.WalkDir(root, func(p string, d fs.DirEntry, err error) error {
 		if err != nil {
@@ -503,7 +509,19 @@ func runCase(c Case) (msg, inconc string, stats map[string]int) {
 		if err := buildWorkspace(c, w); err != nil {
 			return "cannot build the workspace: " + err.Error()
 		}
-		if c.OutExists {
+		if c.OutExists && c.OutSymlink {
+			real := outRoot + ".real"
+			if err := os.MkdirAll(real, 0o755); err != nil {
+				return err.Error()
+			}
+			if err := os.MkdirAll(filepath.Dir(outRoot), 0o755); err != nil {
+				return err.Error()
+			}
+			os.Remove(outRoot)
+			if err := os.Symlink(real, outRoot); err != nil {
+				return err.Error()
+			}
+		} else if c.OutExists {
 			if err := os.MkdirAll(outRoot, 0o755); err != nil {
 				return err.Error()
 			}
